@@ -24,7 +24,7 @@ Q_CONFIGS = [(2, 0, False), (3, 1, False), (3, 1, True), (4, 1, False), (5, 2, F
 def shards(tier, seed):
     from vlib.runner import ALL_CONFIGS
     cfgs = Q_CONFIGS if tier == 'quick' else [c for c in ALL_CONFIGS if c[0] > 1]
-    return [{'name': config_name(c), 'cfg': list(c), 'budget': (70 if c[0] <= 5 else 25) if tier == 'quick' else 600} for c in cfgs]
+    return [{'name': config_name(c), 'cfg': list(c), 'budget': (200 if c[0] <= 5 else 70) if tier == 'quick' else 600} for c in cfgs]
 
 
 def run(shard, rec):
